@@ -18,7 +18,7 @@ from tsgen import norm_ts, random_ts
 
 OPT_FLAGS = ["sorted_fields", "sorted_arguments", "sorted_enum_items", "federation", "prefer_single_line_descriptions",
              "include_specified_by", "compose_directive"]
-STATIC = ["plain", "reason", "default", "ifacedir", "dirarg", "entity"]
+STATIC = ["plain", "reason", "default", "ifacedir", "dirarg", "nulls", "entity"]
 STATIC_DEV = {"ifacedir": "DevInterfaceDirectiveBeforeImplements"}
 ATOMS = [[34], [34, 34, 34], [92], [10], [13], [32], [97], [1], [27], [128512], [98, 99]]
 
@@ -66,8 +66,12 @@ def decorate(rng, ts):
                 doc(a, dep=a["ty"]["k"] != "nn" or a["default"]["k"] != "none")
                 if a["ty"] == {"k": "named", "n": "String"} and rng.random() < 0.5:
                     a["default"] = {"k": "str", "cp": text()}
+                elif a["ty"]["k"] != "nn" and a["default"]["k"] == "none" and rng.random() < 0.2:
+                    a["default"] = {"k": "null"}
         for x in t["inputFields"].values():
             doc(x, dep=x["ty"]["k"] != "nn")
+            if x["ty"]["k"] != "nn" and x["default"]["k"] == "none" and not t.get("oneOf") and rng.random() < 0.2:
+                x["default"] = {"k": "null"}
         for v in t["values"]:
             doc(v)
         if t["kind"] == "SCALAR" and rng.random() < 0.5:
@@ -133,6 +137,19 @@ def body(c):
     for u, s in sorted(set((t[1], vlib.canon(norm17(json.loads(t[2])))) for t in g2.tagged("REPLAY"))):
         for o in rng.sample(options, 1):
             cases.append({"src": u, "slot": "", "flavour": "dynamic", "opts": o, "ts": json.loads(s)})
+    # directive invocations (dynamic::Directive) on every definition of the base type system x argument lists
+    # (none / all null / some null / none null) x the options that change what is printed around an invocation
+    applied = sorted(set(t[1] for t in g.tagged("APPLIED")))
+    applied_opts = [o for o in options if o["indent"] == 0 and not o["sorted_enum_items"] and not o["prefer_single_line_descriptions"]
+                    and not o["include_specified_by"] and o["sorted_fields"] == o["sorted_arguments"] == o["compose_directive"]
+                    and (o["federation"] or not o["compose_directive"])]
+    n_applied = 0
+    for a in applied:
+        x = json.loads(a)
+        for o in applied_opts:
+            cases.append({"src": "applied:" + x["class"], "slot": x["loc"], "flavour": "applied", "opts": o, "ts": norm17(x["ts"]),
+                          "applied": {"loc": x["loc"], "args": x["args"]}})
+            n_applied += 1
     for name in STATIC:
         for o in (options if name == "entity" or not c.quick else rng.sample(options, 24)):
             cases.append({"src": "static", "slot": "", "flavour": "static:" + name, "opts": o, "ts": {}})
@@ -182,10 +199,20 @@ def body(c):
         if kind == "skip":
             c.count_case({"ts": o["ts"], "opts": o["opts"]}, nontrivial=False)
             continue
-        c.count_case({"ts": o["ts"], "opts": o["opts"], "flavour": o["flavour"]}, nontrivial=True)
+        c.count_case({"ts": o["ts"], "opts": o["opts"], "flavour": o["flavour"], "applied": cases[o["id"] - 1].get("applied", "")}, nontrivial=True)
         rep = {k: o[k] for k in ("id", "src", "slot", "flavour", "opts", "ts", "parse_error", "panic", "sdl")}
         c.verdict("ok" if kind == "ok" else ("known:" + ",".join(sorted(devs)) if kind == "known" else "violation"), rep,
                   "SDL %s: %s" % ("does not parse (%s)" % o["parse_error"] if o["parse_error"] else "differs from Describe(ts, opts)", why or o["panic"]))
+    if not c.violations:
+        classes = {cl: 0 for cl in ("none", "all_null", "some_null", "none_null")}
+        for o in obs:
+            if o["flavour"] == "applied" and (o["parse_error"] or any(f["what"] == "applied" and f["s"] == "@meta" for f in o["facts"])):
+                classes[o["src"].split(":")[1]] += 1
+        if min(classes.values()) < 12:
+            raise vlib.ToolError("vacuity: directive invocations did not reach the exported SDL (%s)" % classes)
+        nulls = sum(1 for o in obs for f in o["facts"] if f["what"] == "default" and f["s"] == "null")
+        if nulls < 1000:
+            raise vlib.ToolError("vacuity: only %d `= null` defaults were read back from the exports" % nulls)
     if unlocated:
         c.drift("%d string tokens could not be located at the position the parser reported (crate value used instead)" % unlocated)
     if not c.violations and (counts.get("ok", 0) < 500 or stats["parsed"] < 500):
@@ -195,16 +222,21 @@ def body(c):
     c.cov["verdict_counts"] = counts
     c.cov["rule"] = ("G: every text of <= %d atoms (texts of 3 atoms in 5 of the 12 slots) over {\", \"\"\", \\, LF, CR, SP, a, U+0001, U+001B, U+1F600} (TLC BFS) in each of 12 string slots of a base "
                      "type system (%d cases, descriptions under prefer_single_line x {tab, 2 spaces}); the base type system and its federation variants (entity keys on an object / an object and an interface / federation enabled without entities) under all %d option combinations; "
+                     "the base type system (with explicit `= null` defaults on arguments and input fields of named, list and input-object type beside absent and "
+                     "non-null defaults) with a directive invocation on each of 12 kinds of definition x %d argument lists (none / all null / some null / none null; %d cases); "
                      "valid type systems of the C33 builder machine (%s) under seeded option combinations; %d derive-built schemas under all option "
                      "combinations%s; non-trivial = a valid type system that built and was exported; distinct by (type system, options, flavour)"
-                     % (natoms, n_string, len(options), ",".join(universes), len(STATIC), "" if c.quick else "; 8000 seeded random decorated type systems"))
+                     % (natoms, n_string, len(options), len(applied) // 12, n_applied, ",".join(universes), len(STATIC), "" if c.quick else "; 8000 seeded random decorated type systems"))
     for o in [x for x in obs if verdicts.get(x["id"], [""])[0] == "ok"][:1] + [x for x in obs if verdicts.get(x["id"], [""])[0] == "known"][:2]:
         c.sample({"slot": o["slot"], "opts": o["opts"], "sdl": o["sdl"][:400], "parse_error": o["parse_error"], "verdict": verdicts[o["id"]][0],
                   "deviations": verdicts[o["id"]][1]})
     c.assumptions += ["the crate's parser locates the tokens and gives the document structure; string tokens are read by the TLA+ transcription of StringValue",
                       "order of fields / arguments / enum values is not part of the content (the property does not name it)",
                       "built-in directive definitions and, under `federation`, the subscription root type may be present or absent",
-                      "derive-built schemas are described by hand-written mirrors in the harness (c17_static.rs)"]
+                      "derive-built schemas are described by hand-written mirrors in the harness (c17_static.rs)",
+                      "directive invocations are not among the things the property compares: with an invocation present the document must "
+                      "still parse and denote Describe(ts, opts); the base type system of that family is written out by hand against the "
+                      "dynamic API in the harness (c17.rs mod applied) and compared with the type system TLC printed"]
 
 
 vlib.main("C17", "exploration", body)
